@@ -512,4 +512,148 @@ Proof.
     eexists; eexists. split; [apply Easm; reflexivity|reflexivity].
 Qed.
 
+(* ---------- alignment and the layout of consecutive sections ---------- *)
+
+Lemma align4_spec v : 0 <= v -> v <= align4 v < v + 4 /\ (align4 v) mod 4 = 0.
+Proof.
+  intros Hv. unfold align4, align.
+  pose proof (Z.div_mod (v + 4 - 1) 4 ltac:(lia)) as D.
+  pose proof (Z.mod_pos_bound (v + 4 - 1) 4 ltac:(lia)) as B.
+  split; [lia|]. apply Z.mod_mul. lia.
+Qed.
+
+Lemma align4_fix v : 0 <= v -> v mod 4 = 0 -> align4 v = v.
+Proof.
+  intros Hv Hm. unfold align4, align.
+  pose proof (Z.div_mod v 4 ltac:(lia)) as D. rewrite Hm in D.
+  replace (v + 4 - 1) with (3 + (v / 4) * 4) by lia.
+  rewrite Z.div_add by lia. rewrite (Z.div_small 3 4) by lia. lia.
+Qed.
+
+Lemma align4_add a v : 0 <= a -> 0 <= v -> a mod 4 = 0 -> align4 (a + v) = a + align4 v.
+Proof.
+  intros Ha Hv Hm. unfold align4, align.
+  pose proof (Z.div_mod a 4 ltac:(lia)) as D. rewrite Hm in D.
+  replace (a + v + 4 - 1) with ((v + 4 - 1) + (a / 4) * 4) by lia.
+  rewrite Z.div_add by lia. lia.
+Qed.
+
+(* sections laid out from a 4-aligned position: zero padding between, none after the last *)
+Fixpoint lay (l : list bytes) : bytes :=
+  match l with
+  | [] => []
+  | s :: r =>
+    s ++ match r with [] => [] | _ => zrepeat 0 (align4 (zlen s) - zlen s) ++ lay r end
+  end.
+
+Lemma zlen_zrepeat x n : 0 <= n -> zlen (zrepeat x n) = n.
+Proof.
+  intros H. unfold zrepeat, zlen.
+  assert (L : forall k, length (repeatz x k) = k) by (induction k; simpl; auto).
+  rewrite L. lia.
+Qed.
+
+Lemma join4_lay acc l : (zlen acc) mod 4 = 0 \/ l = [] \/ True ->
+  join4 acc l =
+  acc ++ match l with [] => [] | _ => zrepeat 0 (align4 (zlen acc) - zlen acc) ++ lay l end.
+Proof.
+  intros _. revert acc. induction l as [|s r IH]; intros acc.
+  - cbn [join4]. rewrite app_nil_r. reflexivity.
+  - cbn [join4]. rewrite IH. cbn [lay].
+    pose proof (zlen_nonneg acc) as Ha. pose proof (zlen_nonneg s) as Hs.
+    destruct (align4_spec (zlen acc) Ha) as [B M].
+    rewrite <- !app_assoc. f_equal. f_equal. f_equal.
+    destruct r as [|s2 r2]; [reflexivity|].
+    rewrite !zlen_app, zlen_zrepeat by lia.
+    replace (zlen acc + (align4 (zlen acc) - zlen acc + zlen s)) with (align4 (zlen acc) + zlen s) by lia.
+    rewrite align4_add by lia.
+    replace (align4 (zlen acc) + align4 (zlen s) - (align4 (zlen acc) + zlen s))
+      with (align4 (zlen s) - zlen s) by lia.
+    reflexivity.
+Qed.
+
+Lemma sections_bytes_lay l : sections_bytes l = lay l.
+Proof.
+  unfold sections_bytes. rewrite join4_lay by auto. cbn [app].
+  destruct l; [reflexivity|]. change (zlen (@nil Z)) with 0.
+  change (align4 0 - 0) with 0. reflexivity.
+Qed.
+
+(* ---------- the section loop over a well-formed sequence ---------- *)
+
+Definition sec_ok_at (d : nat) (sb : bytes) : Prop :=
+  bytes_ok sb = true /\ 4 <= zlen sb < 16777215 /\
+  forall rest order,
+    exists h kids, parse_section d 255 (sb ++ rest) order = Ok (NSec h sb kids, 255) /\
+      s_ext h = zlen sb /\
+      exists h' kids', asm (NSec h sb kids) (255, false) = Ok (NSec h' sb kids', (255, false)).
+
+Lemma sec_ok_at_of sb : sec_ok sb -> exists d0, forall d, (d0 <= d)%nat -> sec_ok_at d sb.
+Proof.
+  intros (Ob & Hl & d0 & H). exists d0. intros d Hd. split; [exact Ob|]. split; [exact Hl|].
+  intros rest order. apply H; exact Hd.
+Qed.
+
+Lemma Forall_sec_ok_at l : Forall sec_ok l ->
+  exists d0, forall d, (d0 <= d)%nat -> Forall (sec_ok_at d) l.
+Proof.
+  induction 1 as [|s r Hs Hr (d1 & IH)].
+  - exists 0%nat. intros; constructor.
+  - destruct (sec_ok_at_of s Hs) as (d2 & H2). exists (Nat.max d1 d2). intros d Hd.
+    constructor; [apply H2; lia | apply IH; lia].
+Qed.
+
+Lemma zlen_lay_cons s r : zlen s <= zlen (lay (s :: r)).
+Proof.
+  cbn [lay]. rewrite zlen_app.
+  match goal with |- _ <= _ + zlen ?x => pose proof (zlen_nonneg x) end. lia.
+Qed.
+
+Lemma sections_loop_lay d l : Forall (sec_ok_at d) l ->
+  forall P n i, (zlen P) mod 4 = 0 -> (length l < n)%nat ->
+  exists kids, sections_loop (parse_section d) n (P ++ lay l) 255 (zlen P) i = Ok (kids, 255) /\
+    exists kids', asm_elems kids (255, false) = Ok (kids', (255, false)) /\ map node_buf kids' = l.
+Proof.
+  induction 1 as [|s r Hs Hr IH]; intros P n i HP Hn.
+  - destruct n as [|n]; [cbn in Hn; lia|]. cbn [lay]. rewrite app_nil_r.
+    rewrite sections_loop_done by lia. exists []. split; [reflexivity|].
+    exists []. split; reflexivity.
+  - destruct n as [|n]; [cbn in Hn; lia|]. cbn [length] in Hn.
+    destruct Hs as (Ob & Hl & Hp).
+    pose proof (zlen_nonneg P) as HPn.
+    pose proof (zlen_lay_cons s r) as Hlay.
+    assert (Hlt : zlen P < zlen (P ++ lay (s :: r))).
+    { rewrite zlen_app.
+      match goal with |- _ < _ + ?y => assert (Hy : zlen s <= y) by apply zlen_lay_cons end. lia. }
+    rewrite sections_loop_step by exact Hlt.
+    rewrite zskipn_app_exact. cbn [lay].
+    destruct (Hp (match r with [] => [] | _ => zrepeat 0 (align4 (zlen s) - zlen s) ++ lay r end) i)
+      as (h & ks & Ep & Ee & h' & ks' & Ea).
+    rewrite Ep. cbn [bind sec_ext]. rewrite Ee.
+    replace (zlen s =? 0) with false by lia.
+    destruct (align4_spec (zlen s) ltac:(lia)) as [Bs Ms].
+    rewrite align4_add by lia.
+    destruct r as [|s2 r2].
+    + (* last section *)
+      rewrite app_nil_r.
+      destruct n as [|n]; [lia|].
+      rewrite sections_loop_done by (rewrite zlen_app; lia). cbn [bind].
+      exists [NSec h s ks]. split; [reflexivity|].
+      cbn [Ffs.asm_elems]. rewrite Ea. cbn [bind]. exists [NSec h' s ks']. split; reflexivity.
+    + set (pad := zrepeat 0 (align4 (zlen s) - zlen s)).
+      assert (Lpad : zlen pad = align4 (zlen s) - zlen s) by (apply zlen_zrepeat; lia).
+      replace (P ++ s ++ pad ++ lay (s2 :: r2)) with ((P ++ s ++ pad) ++ lay (s2 :: r2))
+        by (rewrite <- !app_assoc; reflexivity).
+      replace (zlen P + align4 (zlen s)) with (zlen (P ++ s ++ pad))
+        by (rewrite !zlen_app, Lpad; lia).
+      destruct (IH (P ++ s ++ pad) n (i + 1)) as (kids & El & kids' & Ek & Em).
+      * rewrite !zlen_app, Lpad. replace (zlen P + (zlen s + (align4 (zlen s) - zlen s)))
+          with (zlen P + align4 (zlen s)) by lia.
+        rewrite Z.add_mod by lia. rewrite HP, Ms. reflexivity.
+      * cbn [length] in *. lia.
+      * rewrite El. cbn [bind]. exists (NSec h s ks :: kids). split; [reflexivity|].
+        cbn [Ffs.asm_elems]. rewrite Ea. cbn [bind]. rewrite Ek. cbn [bind].
+        exists (NSec h' s ks' :: kids'). split; [reflexivity|]. cbn [map node_buf]. rewrite Em. reflexivity.
+Qed.
+
 End Save.
